@@ -396,8 +396,8 @@ Lemma prefix_cands_sound : forall s n mbf e, cs_inv s -> In e (prefix_cands s n 
 Proof.
   intros s n mbf e I H. unfold prefix_cands in H. apply in_flat_map in H. destruct H as [nd [H1 H2]].
   destruct (node_hit s mbf nd) as [x|] eqn:Hh; [|destruct H2].
-  destruct (is_prefix n (n_path nd) && negb (blocked s mbf (length n) (length (n_path nd) - length n) (n_path nd))) eqn:E; [|destruct H2].
-  destruct H2 as [->|[]]. apply andb_true_iff in E. destruct E as [E _].
+  destruct (is_prefix n (n_path nd)) eqn:E; [|destruct H2].
+  destruct H2 as [->|[]].
   apply node_hit_spec in Hh. destruct Hh as [Hc Ha].
   assert (G : get_node (nodes s) (n_path nd) = Some nd) by (apply In_get_node; [apply (t_nodup _ (ci_tree s I))|exact H1]).
   assert (C : cs_at (nodes s) (n_path nd) = Some e) by (unfold cs_at; rewrite G; exact Hc).
